@@ -71,16 +71,16 @@ P("C05", [], "bounded/C05.py",
   "lifted proof of _sanitize_records is not built yet.", level="other",
   unverified=["_sanitize_records", "_sanitize_pixels", "aggregate_records", "TabixAggregator.aggregate"])
 
-P("C06", [], "bounded/C06.py",
-  "Bounded stand-in only so far (all small record multisets x partitions x orders x mergebuf x max_merge).",
+P("C06", [f"{RED}:merge_breakpoints"], "bounded/C06.py",
+  "Proof core: the merge-epoch partition (merge_breakpoints: bisect loop with invariant and variant, for k = 1,2,3 input indexes and every buffer size) ends exactly where every input is exhausted and is strictly increasing. Bounded stand-in for the rest (all small record multisets x partitions x orders x mergebuf x max_merge).",
   level="other", unverified=["create_from_unordered merge plan", "merge_breakpoints", "CoolerMerger.__iter__"])
 
-P("C07", [], "bounded/C07.py",
-  "Bounded stand-in only so far (all small input families x mergebuf x orders x nestings x dtype limits).",
+P("C07", [f"{RED}:merge_breakpoints"], "bounded/C07.py",
+  "Proof core: merge_breakpoints (shared with C06). Bounded stand-in for the rest (all small input families x mergebuf x orders x nestings x dtype limits).",
   level="other", unverified=["merge_breakpoints", "CoolerMerger.__init__/__iter__", "merge_coolers", "write_pixels"])
 
-P("C08", [], "bounded/C08.py",
-  "Bounded stand-in only so far (all small coolers x factors x chunk sizes x workers against a block-aggregate model).",
+P("C08", [f"{RED}:_greedy_prune_partition"], "bounded/C08.py",
+  "Proof core: the pruned pixel partition consists of values of the coarse-row edge list only (no coarse row is split), strictly ordered, from 0 to nnz, for every edge list and chunk size. Bounded stand-in for the rest (all small coolers x factors x chunk sizes x workers against a block-aggregate model).",
   level="other", unverified=["CoolerCoarsener.__init__/_aggregate/__iter__", "_greedy_prune_partition", "coarsen_bins"])
 
 P("C09", [], "bounded/C09.py",
@@ -90,7 +90,7 @@ P("C09", [], "bounded/C09.py",
 P("C10", [], "bounded/C10.py", "Bounded stand-in only so far.", level="other",
   unverified=["_balance.* filters and loops", "balance_cooler"])
 
-P("C11", [], "bounded/C11.py", "Bounded stand-in only so far.", level="other",
+P("C11", [f"{UT}:partition"], "bounded/C11.py", "Proof core: util.partition tiles [start, stop) exactly for every step (used for the per-chromosome spans of cis-only balancing). Bounded stand-in for the rest.", level="other",
   unverified=["balance_cooler spans", "parallel.split/MultiplexDataPipe", "chunkgetter"])
 
 P("C12", [f"{RQ}:CSRReader.__call__"], "bounded/C12.py",
